@@ -127,6 +127,8 @@ pub enum Hist {
     ServerRx { t: u64, server: usize, proto: Proto, from: SocketAddr, data: Vec<u8> },
     ServerTx { t: u64, server: usize, proto: Proto, len: usize, data: Vec<u8> },
     Http { t: u64, method: String, url: String, headers: Vec<(String, String)> },
+    /// the client put its thread to sleep (no code under test does today): virtual time passes
+    Sleep { t: u64, ns: u64 },
 }
 
 enum Ev {
@@ -1210,6 +1212,10 @@ impl World {
                     f.str(call);
                     f.str(kind);
                 }
+                Hist::Sleep { ns, .. } => {
+                    f.str("Z");
+                    f.u64(*ns);
+                }
                 Hist::Net { what, to_client, .. } => {
                     f.str("N");
                     f.str(what);
@@ -1262,6 +1268,7 @@ impl World {
                 }
                 Hist::Close { t, sock } => format!("t={t} close sock={sock}"),
                 Hist::IoFault { t, call, kind } => format!("t={t} FAULT io-error in {call}: {kind}"),
+                Hist::Sleep { t, ns } => format!("t={t} client sleeps {ns} ns"),
                 Hist::Net { t, what, to_client, len } => {
                     format!("t={t} FAULT net {what} {} len={len}", if *to_client { "to-client" } else { "to-server" })
                 }
@@ -1276,5 +1283,16 @@ impl World {
             out.push(format!("... {} more events", self.hist.len() - max));
         }
         out
+    }
+}
+
+impl World {
+    /// The client's thread sleeps: virtual time passes, nothing else happens on its side.
+    pub fn client_sleep(&mut self, ns: u64) {
+        let t = self.now;
+        self.hist.push(Hist::Sleep { t, ns });
+        self.stats.probe("client_slept");
+        self.stats.client_ops += 1;
+        self.now = self.now.saturating_add(ns);
     }
 }
